@@ -297,14 +297,14 @@ func credCases(w *world) []credCase {
 		}
 	}
 	// malformed, per transport
-	add("malformed", "basic", cred{hdr: "basic", hu: "", hp: rootPw}, "")         // empty user name
-	add("malformed", "basic", cred{hdr: "basic", hu: rootName, hp: ""}, "")       // empty password
-	add("malformed", "basic", cred{hdr: "other", otherRaw: "Basic !!!notb64"}, "") // undecodable
+	add("malformed", "basic", cred{hdr: "basic", hu: "", hp: rootPw}, "")                                                             // empty user name
+	add("malformed", "basic", cred{hdr: "basic", hu: rootName, hp: ""}, "")                                                           // empty password
+	add("malformed", "basic", cred{hdr: "other", otherRaw: "Basic !!!notb64"}, "")                                                    // undecodable
 	add("malformed", "basic", cred{hdr: "other", otherRaw: "Basic " + base64.StdEncoding.EncodeToString([]byte("rootRoot#Pw1"))}, "") // no colon
 	add("malformed", "basic", cred{hdr: "other", otherRaw: "Negotiate abcdef"}, "")
-	add("malformed", "basic", cred{hdr: "other", otherRaw: "Bearer a b"}, "") // three parts
-	add("malformed", "url", cred{hdr: "-", urlU: rootName}, "")              // u without p
-	add("malformed", "url", cred{hdr: "-", urlP: rootPw}, "")                // p without u
+	add("malformed", "basic", cred{hdr: "other", otherRaw: "Bearer a b"}, "")   // three parts
+	add("malformed", "url", cred{hdr: "-", urlU: rootName}, "")                 // u without p
+	add("malformed", "url", cred{hdr: "-", urlP: rootPw}, "")                   // p without u
 	add("malformed", "token", cred{hdr: "token", tokenStr: "rootRoot#Pw1"}, "") // no colon
 	add("malformed", "token", cred{hdr: "token", tokenStr: ":" + rootPw}, "")   // empty user
 	add("malformed", "token", cred{hdr: "token", tokenStr: rootName + ":"}, "") // empty password
